@@ -1,4 +1,900 @@
 import GoProbeModel.Model.C04
+
+/-!
+C04 — property theorems: a crash during a write-out. Day-level atomicity (`crash_consistent_day`),
+lifted to whole histories with one killed write-out (`run_ok`, `crash_consistent_query`), and the
+listing clause with its recorded exception (`listing_partial`).
+-/
 namespace C04
-theorem placeholder : True := trivial
+open DB WO
+
+/-- does write-out `i` store data in column `c`? -/
+def inCol (hist : List WriteOut) (c : Nat) (i : Nat) : Bool :=
+  match hist[i]? with | some w => colNonEmpty w c | none => false
+
+theorem keepLen_eq (hist : List WriteOut) (ids : List Nat) (c : Nat) :
+    keepLen hist ids c = (ids.filter (inCol hist c)).length := rfl
+
+theorem keepLen_append (hist : List WriteOut) (a b : List Nat) (c : Nat) :
+    keepLen hist (a ++ b) c = keepLen hist a c + keepLen hist b c := by
+  simp [keepLen_eq, List.filter_append]
+
+/-- day directory `d` faithfully stores exactly the committed blocks `ids` -/
+structure DayOK (hist : List WriteOut) (d : DayFs) (ids : List Nat) : Prop where
+  hmeta : d.metaIds.getD [] = ids
+  ncols : d.cols.length = 8
+  cols : ∀ c, c < 8 → (d.cols.getD c []).take (keepLen hist ids c) = ids.filter (inCol hist c)
+
+/-! ### list facts -/
+
+theorem filter_index (P : Nat → Bool) (ids : List Nat) (i : Nat) (id : Nat) (h : ids[i]? = some id) (hp : P id = true) :
+    (ids.filter P)[((ids.take i).filter P).length]? = some id := by
+  induction ids generalizing i with
+  | nil => simp at h
+  | cons x xs ih =>
+    cases i with
+    | zero =>
+      simp only [List.getElem?_cons_zero, Option.some.injEq] at h
+      subst h
+      simp [hp]
+    | succ j =>
+      simp only [List.getElem?_cons_succ] at h
+      simp only [List.take_succ_cons]
+      by_cases hx : P x = true
+      · simp only [List.filter_cons, hx, if_true, List.length_cons, List.getElem?_cons_succ]
+        exact ih j h
+      · simp only [List.filter_cons, hx, Bool.false_eq_true, if_false]
+        exact ih j h
+
+theorem take_prefix_getElem {α} (l p : List α) (n : Nat) (h : l.take n = p) (j : Nat) (hj : j < p.length) :
+    l[j]? = p[j]? := by
+  subst h
+  have : j < n := by simp at hj; omega
+  simp [this]
+
+/-- **every committed block of a well-formed day reads back** -/
+theorem readable_of_ok (hist : List WriteOut) (d : DayFs) (ids : List Nat) (hok : DayOK hist d ids)
+    (hin : ∀ id ∈ ids, (hist[id]?).isSome) (i : Nat) (hi : i < ids.length) :
+    blockReadable hist d ids i = true := by
+  unfold blockReadable
+  have hsome : ids[i]? = some ids[i] := List.getElem?_eq_getElem hi
+  rw [hsome]
+  have hh := hin ids[i] (List.getElem_mem hi)
+  cases hw : hist[ids[i]]? with
+  | none => simp [hw] at hh
+  | some w =>
+    simp only [hw]
+    simp only [List.all_eq_true, List.mem_range, Bool.or_eq_true, Bool.not_eq_eq_eq_not, Bool.not_true, beq_iff_eq]
+    intro c hc
+    by_cases hne : colNonEmpty w c = true
+    · right
+      have hp : inCol hist c ids[i] = true := by simp [inCol, hw, hne]
+      have hf := filter_index (inCol hist c) ids i ids[i] hsome hp
+      have hlt : ((ids.take i).filter (inCol hist c)).length < (ids.filter (inCol hist c)).length := by
+        have := List.getElem?_eq_some_iff.1 hf
+        exact this.1
+      rw [keepLen_eq, take_prefix_getElem _ _ _ (hok.cols c hc) _ hlt]
+      exact hf
+    · left; simpa using hne
+
+theorem range_filterMap_getElem (l : List Nat) : (List.range l.length).filterMap (fun i => l[i]?) = l := by
+  induction l with
+  | nil => rfl
+  | cons x xs ih =>
+    rw [List.length_cons, List.range_succ_eq_map, List.filterMap_cons]
+    simp only [List.getElem?_cons_zero, List.filterMap_map]
+    congr 1
+
+theorem dayQueryIds_of_ok (hist : List WriteOut) (d : DayFs) (ids : List Nat) (hok : DayOK hist d ids)
+    (hin : ∀ id ∈ ids, (hist[id]?).isSome) : dayQueryIds hist d = ids := by
+  unfold dayQueryIds
+  have hm := hok.hmeta
+  cases hmi : d.metaIds with
+  | none => simp [hmi] at hm; simp [← hm]
+  | some l =>
+    simp only [hmi, Option.getD_some] at hm
+    subst hm
+    simp only []
+    have : (List.range l.length).filterMap (fun i => if blockReadable hist d l i = true then l[i]? else none)
+         = (List.range l.length).filterMap (fun i => l[i]?) := by
+      have hall : ∀ (r : List Nat), (∀ i ∈ r, i < l.length) →
+          r.filterMap (fun i => if blockReadable hist d l i = true then l[i]? else none) = r.filterMap (fun i => l[i]?) := by
+        intro r hr
+        induction r with
+        | nil => rfl
+        | cons x xs ih =>
+          simp only [List.filterMap_cons, readable_of_ok hist d l hok hin x (hr x (by simp)), if_true]
+          rw [ih (fun i hi => hr i (by simp [hi]))]
+      exact hall _ (fun i hi => List.mem_range.1 hi)
+    rw [this, range_filterMap_getElem]
+
+
+/-! ### one write-out, operation by operation -/
+
+/-- operations before the commit point: neither the metadata rename nor the directory rename -/
+def safeOp (op : Op) : Prop := op ≠ .renamemeta ∧ op ≠ .renamedir
+
+theorem getD_mapIdx (l : List (List Nat)) (f : Nat → List Nat → List Nat) (c : Nat) (hc : c < l.length) :
+    (l.mapIdx f).getD c [] = f c (l.getD c []) := by
+  simp [List.getD_eq_getElem?_getD, List.getElem?_mapIdx, List.getElem?_eq_getElem hc]
+
+/-- column `c` of `d` holds the new payload right after the committed ones -/
+def Written (hist : List WriteOut) (k : Nat) (ids : List Nat) (d : DayFs) (c : Nat) : Prop :=
+  (d.cols.getD c []).take (keepLen hist ids c + 1) = ids.filter (inCol hist c) ++ [k]
+
+theorem applyDay_safe (hist : List WriteOut) (k : Nat) (ids : List Nat) (d : DayFs) (op : Op)
+    (hok : DayOK hist d ids) (hs : safeOp op) :
+    DayOK hist (applyDay hist k ids d op) ids ∧ (applyDay hist k ids d op).named = d.named ∧
+    (applyDay hist k ids d op).metaIds = d.metaIds ∧
+    (∀ c, c < 8 → Written hist k ids d c → Written hist k ids (applyDay hist k ids d op) c) ∧
+    (∀ c, c < 8 → op = .writecol c → Written hist k ids (applyDay hist k ids d op) c) := by
+  have hlen : ∀ c, c < 8 → ((d.cols.getD c []).take (keepLen hist ids c)).length = keepLen hist ids c := by
+    intro c hc; rw [hok.cols c hc, keepLen_eq]
+  cases op with
+  | renamemeta => exact absurd rfl hs.1
+  | renamedir => exact absurd rfl hs.2
+  | writecol c0 =>
+    have hcols : ∀ c, c < 8 → ((applyDay hist k ids d (.writecol c0)).cols.getD c []) =
+        if c = c0 then (d.cols.getD c []).take (keepLen hist ids c0) ++ [k] else d.cols.getD c [] := by
+      intro c hc
+      simp only [applyDay]
+      rw [getD_mapIdx _ _ _ (by rw [hok.ncols]; exact hc)]
+    refine ⟨⟨hok.hmeta, by simp [applyDay, hok.ncols], ?_⟩, rfl, rfl, ?_, ?_⟩
+    · intro c hc
+      rw [hcols c hc]
+      by_cases h : c = c0
+      · subst h
+        simp only [if_true]
+        rw [List.take_append_of_le_length (by rw [hlen c hc]; exact Nat.le_refl _), List.take_take, Nat.min_self]
+        exact hok.cols c hc
+      · simp only [h, if_false]; exact hok.cols c hc
+    · intro c hc hw
+      unfold Written
+      rw [hcols c hc]
+      by_cases h : c = c0
+      · subst h
+        simp only [if_true]
+        rw [List.take_of_length_le (by rw [List.length_append, hlen c hc]; simp)]
+        rw [hok.cols c hc]
+      · simp only [h, if_false]; exact hw
+    · intro c hc he
+      have : c = c0 := by injection he with h; exact h.symm
+      subst this
+      unfold Written
+      rw [hcols c hc]
+      simp only [if_true]
+      rw [List.take_of_length_le (by rw [List.length_append, hlen c hc]; simp), hok.cols c hc]
+  | _ =>
+    refine ⟨⟨hok.hmeta, hok.ncols, hok.cols⟩, rfl, rfl, fun c _ h => h, fun c _ he => by cases he⟩
+
+theorem runDay_safe (hist : List WriteOut) (k : Nat) (ids : List Nat) (ops : List Op) :
+    ∀ (d : DayFs), DayOK hist d ids → (∀ op ∈ ops, safeOp op) →
+    DayOK hist (runDay hist k ids d ops) ids ∧ (runDay hist k ids d ops).named = d.named ∧
+    (runDay hist k ids d ops).metaIds = d.metaIds ∧
+    (∀ c, c < 8 → (Written hist k ids d c ∨ .writecol c ∈ ops) → Written hist k ids (runDay hist k ids d ops) c) := by
+  induction ops with
+  | nil => intro d hok _; exact ⟨hok, rfl, rfl, fun c _ h => h.elim id (fun h => by simp at h)⟩
+  | cons op ops ih =>
+    intro d hok hs
+    obtain ⟨h1, h2, h3, h4, h5⟩ := applyDay_safe hist k ids d op hok (hs op (by simp))
+    obtain ⟨i1, i2, i3, i4⟩ := ih _ h1 (fun o ho => hs o (by simp [ho]))
+    refine ⟨i1, by rw [show runDay hist k ids d (op :: ops) = runDay hist k ids (applyDay hist k ids d op) ops from rfl, i2, h2],
+      by rw [show runDay hist k ids d (op :: ops) = runDay hist k ids (applyDay hist k ids d op) ops from rfl, i3, h3], ?_⟩
+    intro c hc h
+    apply i4 c hc
+    rcases h with h | h
+    · exact Or.inl (h4 c hc h)
+    · simp only [List.mem_cons] at h
+      rcases h with h | h
+      · exact Or.inl (h5 c hc h.symm)
+      · exact Or.inr h
+
+/-- the commit point: once every column that carries data holds the new payload, renaming the
+    metadata file makes the day hold exactly one more block -/
+theorem commit_ok (hist : List WriteOut) (k : Nat) (w : WriteOut) (hk : hist[k]? = some w) (ids : List Nat) (d : DayFs)
+    (hok : DayOK hist d ids) (hw : ∀ c, c < 8 → colNonEmpty w c = true → Written hist k ids d c) :
+    DayOK hist (applyDay hist k ids d .renamemeta) (ids ++ [k]) := by
+  refine ⟨by simp [applyDay], by simp [applyDay, hok.ncols], ?_⟩
+  intro c hc
+  show (d.cols.getD c []).take _ = _
+  rw [keepLen_append, List.filter_append]
+  by_cases hne : colNonEmpty w c = true
+  · have hin : inCol hist c k = true := by simp [inCol, hk, hne]
+    have h1 : keepLen hist [k] c = 1 := by simp [keepLen_eq, hin]
+    have h2 : [k].filter (inCol hist c) = [k] := by simp [hin]
+    rw [h1, h2]; exact hw c hc hne
+  · have hin : inCol hist c k = false := by simp [inCol, hk]; simpa using hne
+    have h1 : keepLen hist [k] c = 0 := by simp [keepLen_eq, hin]
+    have h2 : [k].filter (inCol hist c) = [] := by simp [hin]
+    rw [h1, h2]; simpa using hok.cols c hc
+
+theorem runDay_post (hist : List WriteOut) (k : Nat) (base ids : List Nat) (ops : List Op) :
+    ∀ (d : DayFs), DayOK hist d ids → (∀ op ∈ ops, op = .renamedir ∨ op = .unlink) →
+    DayOK hist (runDay hist k base d ops) ids ∧
+    (runDay hist k base d ops).named = if .renamedir ∈ ops then some (totalsIds hist ids) else d.named := by
+  induction ops with
+  | nil => intro d hok _; exact ⟨hok, by simp [runDay]⟩
+  | cons op ops ih =>
+    intro d hok hs
+    have hop := hs op (by simp)
+    have hok' : DayOK hist (applyDay hist k base d op) ids := by
+      rcases hop with rfl | rfl <;> exact ⟨hok.hmeta, hok.ncols, hok.cols⟩
+    obtain ⟨i1, i2⟩ := ih _ hok' (fun o ho => hs o (by simp [ho]))
+    refine ⟨i1, ?_⟩
+    rw [show runDay hist k base d (op :: ops) = runDay hist k base (applyDay hist k base d op) ops from rfl, i2]
+    rcases hop with rfl | rfl
+    · by_cases h : Op.renamedir ∈ ops
+      · simp [h]
+      · simp [h, applyDay, hok.hmeta]
+    · by_cases h : Op.renamedir ∈ ops <;> simp [h, applyDay]
+
+/-- **crash atomicity of one write-out on its day** (any crash index `n`): before the metadata
+    rename the day holds exactly the old blocks and its name is untouched; from the rename on it holds
+    exactly the old blocks plus the new one, all readable; the name carries the new summary once the
+    directory rename has run. -/
+theorem day_crash (hist : List WriteOut) (k : Nat) (w : WriteOut) (hk : hist[k]? = some w) (ids : List Nat) (d : DayFs)
+    (hok : DayOK hist d ids) (pre post : List Op) (hpre : ∀ op ∈ pre, safeOp op)
+    (hw : ∀ c, c < 8 → colNonEmpty w c = true → .writecol c ∈ pre)
+    (hpost : ∀ op ∈ post, op = .renamedir ∨ op = .unlink) (n : Nat) :
+    (n ≤ pre.length →
+        DayOK hist (runDay hist k ids d ((pre ++ [Op.renamemeta] ++ post).take n)) ids ∧
+        (runDay hist k ids d ((pre ++ [Op.renamemeta] ++ post).take n)).named = d.named) ∧
+    (pre.length < n →
+        DayOK hist (runDay hist k ids d ((pre ++ [Op.renamemeta] ++ post).take n)) (ids ++ [k]) ∧
+        (runDay hist k ids d ((pre ++ [Op.renamemeta] ++ post).take n)).named =
+          if .renamedir ∈ post.take (n - pre.length - 1) then some (totalsIds hist (ids ++ [k])) else d.named) := by
+  constructor
+  · intro hn
+    have e : (pre ++ [Op.renamemeta] ++ post).take n = pre.take n := by
+      rw [List.append_assoc, List.take_append_of_le_length hn]
+    rw [e]
+    obtain ⟨h1, h2, _, _⟩ := runDay_safe hist k ids (pre.take n) d hok (fun op ho => hpre op (List.mem_of_mem_take ho))
+    exact ⟨h1, h2⟩
+  · intro hn
+    have e : (pre ++ [Op.renamemeta] ++ post).take n = pre ++ [Op.renamemeta] ++ post.take (n - pre.length - 1) := by
+      rw [List.take_append, List.take_append]
+      have h1 : pre.take n = pre := List.take_of_length_le (by omega)
+      have h2 : ([Op.renamemeta]).take (n - pre.length) = [.renamemeta] := by
+        apply List.take_of_length_le; simp; omega
+      simp only [h1, h2, List.length_append, List.length_cons, List.length_nil]
+      congr 2
+    rw [e]
+    obtain ⟨h1, h2, _, h4⟩ := runDay_safe hist k ids pre d hok hpre
+    have hc := commit_ok hist k w hk ids _ h1 (fun c hc hne => h4 c hc (Or.inr (hw c hc hne)))
+    have hrun : runDay hist k ids d (pre ++ [Op.renamemeta] ++ post.take (n - pre.length - 1))
+        = runDay hist k ids (applyDay hist k ids (runDay hist k ids d pre) .renamemeta) (post.take (n - pre.length - 1)) := by
+      simp [runDay, List.foldl_append]
+    rw [hrun]
+    obtain ⟨p1, p2⟩ := runDay_post hist k ids (ids ++ [k]) (post.take (n - pre.length - 1)) _ hc
+      (fun op ho => hpost op (List.mem_of_mem_take ho))
+    refine ⟨p1, ?_⟩
+    rw [p2]
+    split
+    · rfl
+    · simp [applyDay, h2]
+
+
+/-! ### the model's program satisfies the shape `day_crash` needs -/
+
+theorem program_eq (hist : List WriteOut) (fs : Fs) (k : Nat) (w : WriteOut) (hk : hist[k]? = some w) :
+    program hist fs k = preOps hist fs k ++ [Op.renamemeta] ++ postOps hist fs k := by
+  simp [program, hk]
+
+def isSafe : Op → Bool
+  | .renamemeta => false
+  | .renamedir => false
+  | _ => true
+
+theorem safe_of_isSafe {op : Op} (h : isSafe op = true) : safeOp op := by
+  constructor <;> (intro e; subst e; simp [isSafe] at h)
+
+theorem all_safe_ite (c : Prop) [Decidable c] (op : Op) (h : isSafe op = true) :
+    (if c then ([] : List Op) else [op]).all isSafe = true := by
+  split <;> simp [h]
+
+theorem preOps_all_safe (hist : List WriteOut) (fs : Fs) (k : Nat) : (preOps hist fs k).all isSafe = true := by
+  unfold preOps
+  cases hk : hist[k]? with
+  | none => simp
+  | some w =>
+    simp only [List.all_append, Bool.and_eq_true]
+    refine ⟨⟨⟨⟨by simp [isSafe], ?_⟩, by simp [isSafe]⟩, ?_⟩, by simp [isSafe]⟩
+    · cases fs.day? w.iface (dayOf w.ts) with
+      | some _ => simp
+      | none =>
+        simp only [List.all_append, Bool.and_eq_true]
+        exact ⟨⟨⟨all_safe_ite _ _ (by simp [isSafe]), all_safe_ite _ _ (by simp [isSafe])⟩,
+          all_safe_ite _ _ (by simp [isSafe])⟩, by simp [isSafe]⟩
+    · simp [List.all_flatMap, isSafe]
+
+theorem preOps_safe (hist : List WriteOut) (fs : Fs) (k : Nat) : ∀ op ∈ preOps hist fs k, safeOp op := by
+  intro op hop
+  exact safe_of_isSafe (List.all_eq_true.1 (preOps_all_safe hist fs k) op hop)
+
+theorem preOps_writes (hist : List WriteOut) (fs : Fs) (k : Nat) (w : WriteOut) (hk : hist[k]? = some w)
+    (c : Nat) (hc : c < 8) (hne : colNonEmpty w c = true) : Op.writecol c ∈ preOps hist fs k := by
+  unfold preOps
+  simp only [hk]
+  simp only [List.mem_append, List.mem_cons, List.mem_flatMap, List.mem_filter, List.mem_range]
+  left; right
+  exact ⟨c, ⟨hc, hne⟩, Or.inr (Or.inl rfl)⟩
+
+theorem postOps_shape (hist : List WriteOut) (fs : Fs) (k : Nat) :
+    ∀ op ∈ postOps hist fs k, op = Op.renamedir ∨ op = Op.unlink := by
+  intro op hop
+  unfold postOps at hop
+  cases hk : hist[k]? with
+  | none => simp [hk] at hop
+  | some w =>
+    simp only [hk] at hop
+    simp only [List.mem_append, List.mem_cons, List.not_mem_nil, or_false] at hop
+    rcases hop with h | h | h
+    · split at h
+      · simp at h
+      · simp at h; exact Or.inl h
+    · exact Or.inr h
+    · exact Or.inr h
+
+/-- the commit point of write-out `k`: the index just after `renamemeta` -/
+def commitIndex (hist : List WriteOut) (fs : Fs) (k : Nat) : Nat := (preOps hist fs k).length + 1
+
+/-- a day is *clean* when its name carries no summary yet or exactly that of its committed blocks -/
+def CleanName (hist : List WriteOut) (d : DayFs) (ids : List Nat) : Prop :=
+  d.named = none ∨ d.named = some (totalsIds hist ids)
+
+/-- what `ReadMetadata` reports for a day over the whole range -/
+def dayList (hist : List WriteOut) (d : DayFs) : Totals :=
+  match d.metaIds with
+  | none => zeroTotals
+  | some ids => d.named.getD (totalsIds hist ids)
+
+/-- **crash_consistent_day** (C04, per day, every crash index): killed before the commit index the
+    day reads back as its old blocks and lists their totals; killed at or after it, as the old
+    blocks plus the new one — except that the *listing* still shows the old summary while the
+    directory has not been renamed (the recorded finding); a write-out that runs to completion always
+    ends in a clean day. -/
+theorem crash_consistent_day (hist : List WriteOut) (fs : Fs) (k : Nat) (w : WriteOut) (hk : hist[k]? = some w)
+    (d0 : DayFs) (ids : List Nat) (hok : DayOK hist d0 ids)
+    (hd0 : (fs.day? w.iface (dayOf w.ts)).getD d0 = d0)
+    (hmeta0 : ids ≠ [] → d0.metaIds = some ids)
+    (n : Nat) :
+    let d' := runDay hist k ids d0 ((program hist fs k).take n)
+    (n < commitIndex hist fs k →
+        DayOK hist d' ids ∧ d'.named = d0.named ∧ d'.metaIds = d0.metaIds) ∧
+    (commitIndex hist fs k ≤ n →
+        DayOK hist d' (ids ++ [k]) ∧ d'.metaIds = some (ids ++ [k]) ∧
+        (d'.named = some (totalsIds hist (ids ++ [k])) ∨
+         (d'.named = d0.named ∧ Op.renamedir ∈ postOps hist fs k ∧
+          Op.renamedir ∉ (postOps hist fs k).take (n - commitIndex hist fs k)))) := by
+  intro d'
+  have hp := program_eq hist fs k w hk
+  have hc := day_crash hist k w hk ids d0 hok (preOps hist fs k) (postOps hist fs k)
+    (preOps_safe hist fs k) (fun c hc hne => preOps_writes hist fs k w hk c hc hne) (postOps_shape hist fs k) n
+  rw [← hp] at hc
+  constructor
+  · intro hn
+    unfold commitIndex at hn
+    obtain ⟨h1, h2⟩ := hc.1 (by omega)
+    refine ⟨h1, h2, ?_⟩
+    have e : (program hist fs k).take n = (preOps hist fs k).take n := by
+      rw [hp, List.append_assoc, List.take_append_of_le_length (by omega)]
+    exact (runDay_safe hist k ids _ d0 hok (fun op ho => preOps_safe hist fs k op (List.mem_of_mem_take (e ▸ ho)))).2.2.1
+  · intro hn
+    unfold commitIndex at hn
+    obtain ⟨h1, h2⟩ := hc.2 (by omega)
+    have hm : d'.metaIds = some (ids ++ [k]) := by
+      have hg : d'.metaIds.getD [] = ids ++ [k] := h1.hmeta
+      cases hmi : d'.metaIds with
+      | none => rw [hmi] at hg; simp at hg
+      | some l => rw [hmi] at hg; simp at hg; rw [hg]
+    refine ⟨h1, hm, ?_⟩
+    have e : n - (preOps hist fs k).length - 1 = n - commitIndex hist fs k := by unfold commitIndex; omega
+    rw [e] at h2
+    by_cases hr : Op.renamedir ∈ (postOps hist fs k).take (n - commitIndex hist fs k)
+    · left; rw [h2]; simp [hr]
+    · simp only [hr, if_false] at h2
+      -- either the program contains no directory rename (the name already carries the new summary) …
+      by_cases hin : Op.renamedir ∈ postOps hist fs k
+      · right; exact ⟨h2, hin, hr⟩
+      · left
+        rw [h2]
+        unfold postOps at hin
+        simp only [hk, List.mem_append, List.mem_cons, List.not_mem_nil, or_false] at hin
+        have : ((fs.day? w.iface (dayOf w.ts)).bind (·.named)) =
+            some (totalsIds hist (((fs.day? w.iface (dayOf w.ts)).bind (·.metaIds)).getD [] ++ [k])) := by
+          apply Classical.byContradiction
+          intro hne
+          apply hin
+          left
+          simp [hne]
+        cases hday : fs.day? w.iface (dayOf w.ts) with
+        | none => simp [hday] at this
+        | some dd =>
+          have hdd : dd = d0 := by simpa [hday] using hd0
+          subst hdd
+          simp only [hday, Option.bind_some] at this
+          rw [this]
+          congr 2
+          by_cases hi : ids = []
+          · subst hi
+            have := hok.hmeta
+            simp [this]
+          · simp [hmeta0 hi]
+
+
+/-! ### lifting to the whole database: only the day being written changes -/
+
+def keyEq (d : DayFs) (iface : String) (day : Int) : Bool := d.iface == iface && d.day == day
+
+theorem day?_eq (fs : Fs) (iface : String) (day : Int) :
+    fs.day? iface day = fs.days.find? (fun d => keyEq d iface day) := rfl
+
+theorem find_setDay_same (days : List DayFs) (d : DayFs) :
+    (if days.any (fun x => keyEq x d.iface d.day)
+      then days.map (fun x => if keyEq x d.iface d.day then d else x)
+      else days ++ [d]).find? (fun x => keyEq x d.iface d.day) = some d := by
+  have hd : keyEq d d.iface d.day = true := by simp [keyEq]
+  induction days with
+  | nil => simp [hd]
+  | cons x xs ih =>
+    by_cases hx : keyEq x d.iface d.day = true
+    · simp [hx, hd]
+    · have hx' : keyEq x d.iface d.day = false := by simpa using hx
+      simp only [List.any_cons, hx', Bool.false_or]
+      by_cases ha : xs.any (fun x => keyEq x d.iface d.day) = true
+      · simp only [ha, if_true] at ih ⊢
+        simp only [List.map_cons, hx', Bool.false_eq_true, if_false, List.find?_cons]
+        exact ih
+      · simp only [ha, Bool.false_eq_true, if_false] at ih ⊢
+        simp only [List.cons_append, List.find?_cons, hx']
+        exact ih
+
+theorem setDay_same (fs : Fs) (d : DayFs) : (fs.setDay d).day? d.iface d.day = some d := by
+  unfold Fs.setDay
+  have := find_setDay_same fs.days d
+  split
+  · rename_i h
+    simp only [day?_eq]
+    have h' : fs.days.any (fun x => keyEq x d.iface d.day) = true := h
+    simp only [h', if_true] at this
+    exact this
+  · rename_i h
+    simp only [day?_eq]
+    have h' : ¬ fs.days.any (fun x => keyEq x d.iface d.day) = true := h
+    simp only [h', if_false] at this
+    exact this
+
+theorem find_setDay_other (days : List DayFs) (d : DayFs) (iface : String) (day : Int)
+    (hne : keyEq d iface day = false)
+    (hcompat : ∀ x, keyEq x d.iface d.day = true → keyEq x iface day = false) :
+    (if days.any (fun x => keyEq x d.iface d.day)
+      then days.map (fun x => if keyEq x d.iface d.day then d else x)
+      else days ++ [d]).find? (fun x => keyEq x iface day) = days.find? (fun x => keyEq x iface day) := by
+  have hmap : ∀ (l : List DayFs), (l.map (fun x => if keyEq x d.iface d.day then d else x)).find? (fun x => keyEq x iface day)
+      = l.find? (fun x => keyEq x iface day) := by
+    intro l
+    induction l with
+    | nil => rfl
+    | cons x xs ih =>
+      simp only [List.map_cons, List.find?_cons]
+      by_cases hx : keyEq x d.iface d.day = true
+      · simp only [hx, if_true, hne, hcompat x hx]; exact ih
+      · have hx' : keyEq x d.iface d.day = false := by simpa using hx
+        simp only [hx', Bool.false_eq_true, if_false]; rw [ih]
+  split
+  · exact hmap days
+  · rw [List.find?_append]
+    simp [hne]
+
+theorem keyEq_compat (x d : DayFs) (iface : String) (day : Int) (hne : keyEq d iface day = false)
+    (hx : keyEq x d.iface d.day = true) : keyEq x iface day = false := by
+  simp only [keyEq, Bool.and_eq_true, beq_iff_eq] at hx
+  simp only [keyEq, Bool.and_eq_false_iff, beq_eq_false_iff_ne, ne_eq] at hne ⊢
+  rcases hne with h | h
+  · left; rw [hx.1]; exact h
+  · right; rw [hx.2]; exact h
+
+theorem setDay_other (fs : Fs) (d : DayFs) (iface : String) (day : Int) (hne : keyEq d iface day = false) :
+    (fs.setDay d).day? iface day = fs.day? iface day := by
+  unfold Fs.setDay
+  have := find_setDay_other fs.days d iface day hne (fun x hx => keyEq_compat x d iface day hne hx)
+  split
+  · rename_i h
+    have h' : fs.days.any (fun x => keyEq x d.iface d.day) = true := h
+    simp only [h', if_true] at this
+    exact this
+  · rename_i h
+    have h' : ¬ fs.days.any (fun x => keyEq x d.iface d.day) = true := h
+    simp only [h', if_false] at this
+    exact this
+
+theorem applyDay_key (hist : List WriteOut) (k : Nat) (base : List Nat) (d : DayFs) (op : Op) :
+    (applyDay hist k base d op).iface = d.iface ∧ (applyDay hist k base d op).day = d.day := by
+  cases op <;> simp [applyDay]
+
+theorem runDay_key (hist : List WriteOut) (k : Nat) (base : List Nat) (ops : List Op) (d : DayFs) :
+    (runDay hist k base d ops).iface = d.iface ∧ (runDay hist k base d ops).day = d.day := by
+  induction ops generalizing d with
+  | nil => exact ⟨rfl, rfl⟩
+  | cons op ops ih =>
+    have h1 := applyDay_key hist k base d op
+    have h2 := ih (applyDay hist k base d op)
+    exact ⟨h2.1.trans h1.1, h2.2.trans h1.2⟩
+
+/-- every other day of the database is untouched by write-out `k`, killed or not -/
+theorem runWriteOut_other (hist : List WriteOut) (fs : Fs) (k n : Nat) (w : WriteOut) (hk : hist[k]? = some w)
+    (iface : String) (day : Int) (hne : ¬ (w.iface = iface ∧ dayOf w.ts = day))
+    (hkey : ∀ d, fs.day? w.iface (dayOf w.ts) = some d → d.iface = w.iface ∧ d.day = dayOf w.ts) :
+    (runWriteOut hist fs k n).day? iface day = fs.day? iface day := by
+  unfold runWriteOut
+  simp only [hk]
+  split
+  · have hrk := runDay_key hist k (baseOf hist fs k)
+      ((program hist fs k).take n) ((fs.day? w.iface (dayOf w.ts)).getD (freshDay w.iface (dayOf w.ts)))
+    have hd0 : ((fs.day? w.iface (dayOf w.ts)).getD (freshDay w.iface (dayOf w.ts))).iface = w.iface ∧
+        ((fs.day? w.iface (dayOf w.ts)).getD (freshDay w.iface (dayOf w.ts))).day = dayOf w.ts := by
+      cases hd : fs.day? w.iface (dayOf w.ts) with
+      | none => simp [freshDay]
+      | some d => simpa using hkey d hd
+    have : keyEq (runDay hist k (baseOf hist fs k)
+        ((fs.day? w.iface (dayOf w.ts)).getD (freshDay w.iface (dayOf w.ts))) ((program hist fs k).take n)) iface day = false := by
+      simp only [keyEq, hrk.1, hrk.2, hd0.1, hd0.2, Bool.and_eq_false_iff, beq_eq_false_iff_ne, ne_eq]
+      by_cases h1 : w.iface = iface
+      · right; intro h2; exact hne ⟨h1, h2⟩
+      · left; exact h1
+    exact setDay_other _ _ iface day this
+  · rfl
+
+/-- … and its own day is exactly the day-level run of `crash_consistent_day` -/
+theorem runWriteOut_own (hist : List WriteOut) (fs : Fs) (k n : Nat) (w : WriteOut) (hk : hist[k]? = some w)
+    (hkey : ∀ d, fs.day? w.iface (dayOf w.ts) = some d → d.iface = w.iface ∧ d.day = dayOf w.ts) :
+    (runWriteOut hist fs k n).day? w.iface (dayOf w.ts) =
+      if (fs.day? w.iface (dayOf w.ts)).isSome ||
+          ((program hist fs k).take n).contains (.mkdir ((yearMonth w.ts).2 ++ "/" ++ toString (dayOf w.ts)))
+      then some (runDay hist k (baseOf hist fs k)
+        ((fs.day? w.iface (dayOf w.ts)).getD (freshDay w.iface (dayOf w.ts))) ((program hist fs k).take n))
+      else none := by
+  unfold runWriteOut
+  simp only [hk]
+  have hrk := runDay_key hist k (baseOf hist fs k)
+      ((program hist fs k).take n) ((fs.day? w.iface (dayOf w.ts)).getD (freshDay w.iface (dayOf w.ts)))
+  have hd0 : ((fs.day? w.iface (dayOf w.ts)).getD (freshDay w.iface (dayOf w.ts))).iface = w.iface ∧
+      ((fs.day? w.iface (dayOf w.ts)).getD (freshDay w.iface (dayOf w.ts))).day = dayOf w.ts := by
+    cases hd : fs.day? w.iface (dayOf w.ts) with
+    | none => simp [freshDay]
+    | some d => simpa using hkey d hd
+  split
+  · rename_i hc
+    have := setDay_same { fs with dirs := fs.dirs ++ newDirs w.iface ((yearMonth w.ts).2 ++ "/" ++ toString (dayOf w.ts)) ((program hist fs k).take n), ifaces := if ((program hist fs k).take n).contains (.mkdir "") then fs.ifaces ++ [w.iface] else fs.ifaces }
+      (runDay hist k (baseOf hist fs k) ((fs.day? w.iface (dayOf w.ts)).getD (freshDay w.iface (dayOf w.ts))) ((program hist fs k).take n))
+    rw [hrk.1, hrk.2, hd0.1, hd0.2] at this
+    exact this
+  · rename_i hc
+    have hnone : fs.day? w.iface (dayOf w.ts) = none := by
+      cases hd : fs.day? w.iface (dayOf w.ts) with
+      | none => rfl
+      | some d => simp [hd] at hc
+    simp only [Fs.day?] at hnone ⊢
+    exact hnone
+
+
+/-! ### whole histories -/
+
+theorem day?_key (fs : Fs) (iface : String) (day : Int) (d : DayFs) (h : fs.day? iface day = some d) :
+    d.iface = iface ∧ d.day = day := by
+  have := List.find?_some h
+  simpa [keyEq] using this
+
+def onDay (hist : List WriteOut) (i : Nat) (iface : String) (day : Int) : Bool :=
+  match hist[i]? with
+  | some w => w.iface == iface && dayOf w.ts == day
+  | none => false
+
+/-- did write-out `i` of the run reach its commit point? (only the killed one may not) -/
+def committedBy (hist : List WriteOut) (crash : Option (Nat × Nat)) (i : Nat) : Bool :=
+  match crash with
+  | some (k, n) => i != k || decide (commitIndex hist (runHistory hist crash k) k ≤ n)
+  | none => true
+
+/-- the blocks a day must hold after the first `upto` write-outs of the run -/
+def expectedIds (hist : List WriteOut) (crash : Option (Nat × Nat)) (upto : Nat) (iface : String) (day : Int) : List Nat :=
+  (List.range upto).filter fun i => onDay hist i iface day && committedBy hist crash i
+
+theorem program_length_le (hist : List WriteOut) (fs : Fs) (k : Nat) : (program hist fs k).length ≤ 40 := by
+  unfold program
+  cases hk : hist[k]? with
+  | none => simp
+  | some w =>
+    simp only [List.length_append, List.length_cons, List.length_nil]
+    have h1 : (preOps hist fs k).length ≤ 1 + 4 + 1 + 16 + 3 := by
+      have hcols : (((List.range 8).filter (colNonEmpty w)).flatMap (fun c => [Op.opencol c, Op.writecol c])).length ≤ 16 := by
+        rw [List.length_flatMap]
+        have : ((List.range 8).filter (colNonEmpty w)).length ≤ 8 := by
+          have := List.length_filter_le (colNonEmpty w) (List.range 8); simpa using this
+        simp only [List.length_cons, List.length_nil, List.map_const', List.sum_replicate_nat]
+        omega
+      unfold preOps
+      simp only [hk]
+      generalize (((List.range 8).filter (colNonEmpty w)).flatMap (fun c => [Op.opencol c, Op.writecol c])) = colops at hcols
+      cases fs.day? w.iface (dayOf w.ts) with
+      | some _ => simp only [List.length_append, List.length_cons, List.length_nil]; omega
+      | none =>
+        simp only [List.length_append, List.length_cons, List.length_nil]
+        repeat' split
+        all_goals simp only [List.length_cons, List.length_nil]; omega
+    have h2 : (postOps hist fs k).length ≤ 3 := by
+      unfold postOps
+      simp only [hk, List.length_append, List.length_cons, List.length_nil]
+      split <;> simp
+    omega
+
+/-- how far write-out `u` of the run gets: the victim stops before operation `n`, all others run to completion -/
+def stepIndex (crash : Option (Nat × Nat)) (u : Nat) : Nat :=
+  match crash with | some (k, n) => if u = k then n else 1000 | none => 1000
+
+theorem runHistory_succ (hist : List WriteOut) (crash : Option (Nat × Nat)) (upto : Nat) :
+    runHistory hist crash (upto + 1) =
+      runWriteOut hist (runHistory hist crash upto) upto (stepIndex crash upto) := by
+  unfold stepIndex
+  unfold runHistory
+  rw [List.range_succ, List.foldl_append]
+  simp only [List.foldl_cons, List.foldl_nil]
+  cases crash with
+  | none => rfl
+  | some p => obtain ⟨k, n⟩ := p; simp only []; split <;> rfl
+
+/-- invariant of a run: every day directory is well-formed and holds exactly the expected blocks;
+    a day without a directory has no committed block -/
+def RunOK (hist : List WriteOut) (crash : Option (Nat × Nat)) (upto : Nat) (fs : Fs) : Prop :=
+  (∀ iface day d, fs.day? iface day = some d →
+    DayOK hist d (d.metaIds.getD []) ∧ d.metaIds.getD [] = expectedIds hist crash upto iface day) ∧
+  (∀ iface day, fs.day? iface day = none → expectedIds hist crash upto iface day = [])
+
+theorem dayOK_fresh (hist : List WriteOut) (iface : String) (day : Int) : DayOK hist (freshDay iface day) [] := by
+  refine ⟨rfl, by simp [freshDay], ?_⟩
+  intro c hc
+  simp [freshDay, keepLen_eq]
+
+theorem expectedIds_succ (hist : List WriteOut) (crash : Option (Nat × Nat)) (upto : Nat) (iface : String) (day : Int) :
+    expectedIds hist crash (upto + 1) iface day =
+      expectedIds hist crash upto iface day ++
+        (if onDay hist upto iface day && committedBy hist crash upto then [upto] else []) := by
+  unfold expectedIds
+  rw [List.range_succ, List.filter_append]
+  congr 1
+  simp only [List.filter_cons, List.filter_nil]
+
+/-- **crash_consistent** (C04): for every history of write-outs, every victim `k` and every crash
+    index `n`, after any number of the write-outs every day directory is well-formed and holds
+    exactly the blocks of the write-outs that reached their commit point — all of them except possibly
+    the killed one; in particular every write-out after the crash succeeds and is stored. -/
+theorem commitIndex_le_length (hist : List WriteOut) (fs : Fs) (k : Nat) (w : WriteOut) (hk : hist[k]? = some w) :
+    commitIndex hist fs k ≤ (program hist fs k).length := by
+  rw [program_eq hist fs k w hk]; simp [commitIndex]
+
+theorem mkdir_in_pre (hist : List WriteOut) (fs : Fs) (k : Nat) (w : WriteOut) (hk : hist[k]? = some w)
+    (hnone : fs.day? w.iface (dayOf w.ts) = none) :
+    Op.mkdir ((yearMonth w.ts).2 ++ "/" ++ toString (dayOf w.ts)) ∈ preOps hist fs k := by
+  unfold preOps
+  simp only [hk, hnone]
+  simp
+
+/-- the step of the run: how one (possibly killed) write-out changes the invariant -/
+theorem step_ok (hist : List WriteOut) (crash : Option (Nat × Nat)) (u : Nat) (w : WriteOut) (hk : hist[u]? = some w)
+    (fs : Fs) (hfs : runHistory hist crash u = fs) (ihu : RunOK hist crash u fs) (n : Nat)
+    (hn : stepIndex crash u = n) :
+    RunOK hist crash (u + 1) (runWriteOut hist fs u n) := by
+  have hkey := fun d h => day?_key fs w.iface (dayOf w.ts) d h
+  -- whether this write-out reaches its commit point, in terms of `committedBy`
+  have hcommit : committedBy hist crash u = decide (commitIndex hist fs u ≤ n) := by
+    have hbig : commitIndex hist fs u ≤ 1000 := by
+      have := commitIndex_le_length hist fs u w hk
+      have := program_length_le hist fs u
+      omega
+    cases crash with
+    | none => simp only [committedBy]; simp only [stepIndex] at hn; subst hn; simp [hbig]
+    | some p =>
+      obtain ⟨k, n0⟩ := p
+      simp only [committedBy]
+      simp only [stepIndex] at hn
+      by_cases huk : u = k
+      · subst huk
+        simp only [if_true] at hn
+        subst hn
+        simp [hfs]
+      · simp only [huk, if_false] at hn
+        subst hn
+        simp [huk, hbig]
+  have hexp : ∀ iface day, expectedIds hist crash (u + 1) iface day =
+      expectedIds hist crash u iface day ++
+        (if (w.iface = iface ∧ dayOf w.ts = day) ∧ commitIndex hist fs u ≤ n then [u] else []) := by
+    intro iface day
+    rw [expectedIds_succ, hcommit]
+    congr 1
+    simp only [onDay, hk, Bool.and_eq_true, beq_iff_eq, decide_eq_true_eq]
+  -- the day before this write-out
+  have hd0 : DayOK hist ((fs.day? w.iface (dayOf w.ts)).getD (freshDay w.iface (dayOf w.ts)))
+      (((fs.day? w.iface (dayOf w.ts)).getD (freshDay w.iface (dayOf w.ts))).metaIds.getD []) ∧
+      ((fs.day? w.iface (dayOf w.ts)).getD (freshDay w.iface (dayOf w.ts))).metaIds.getD [] =
+        expectedIds hist crash u w.iface (dayOf w.ts) ∧
+      baseOf hist fs u = ((fs.day? w.iface (dayOf w.ts)).getD (freshDay w.iface (dayOf w.ts))).metaIds.getD [] := by
+    cases hday : fs.day? w.iface (dayOf w.ts) with
+    | some d0 =>
+      obtain ⟨a, b⟩ := ihu.1 _ _ d0 hday
+      exact ⟨by simpa using a, by simpa using b, by simp [baseOf, hk, hday]⟩
+    | none =>
+      exact ⟨by simpa [freshDay] using dayOK_fresh hist w.iface (dayOf w.ts),
+        by simpa [freshDay] using (ihu.2 _ _ hday).symm, by simp [baseOf, hk, hday, freshDay]⟩
+  obtain ⟨hok0, hids0, hbase⟩ := hd0
+  have hday_crash := crash_consistent_day hist fs u w hk
+    ((fs.day? w.iface (dayOf w.ts)).getD (freshDay w.iface (dayOf w.ts)))
+    (((fs.day? w.iface (dayOf w.ts)).getD (freshDay w.iface (dayOf w.ts))).metaIds.getD []) hok0
+    (by cases h : fs.day? w.iface (dayOf w.ts) <;> simp)
+    (by
+      intro hne
+      cases hm : ((fs.day? w.iface (dayOf w.ts)).getD (freshDay w.iface (dayOf w.ts))).metaIds with
+      | none => simp [hm] at hne
+      | some l => simp)
+    n
+  rw [← hbase] at hday_crash
+  have hB : baseOf hist fs u = expectedIds hist crash u w.iface (dayOf w.ts) := hbase.trans hids0
+  constructor
+  · intro iface day d hd
+    by_cases hown : w.iface = iface ∧ dayOf w.ts = day
+    · obtain ⟨rfl, rfl⟩ := hown
+      rw [runWriteOut_own hist fs u n w hk hkey] at hd
+      split at hd
+      · simp only [Option.some.injEq] at hd
+        subst hd
+        rw [hexp]
+        by_cases hc : commitIndex hist fs u ≤ n
+        · obtain ⟨h1, h2, _⟩ := hday_crash.2 hc
+          refine ⟨by rw [h2]; simpa using h1, ?_⟩
+          rw [h2]; simp [hc, hB]
+        · obtain ⟨h1, _, h3⟩ := hday_crash.1 (by omega)
+          refine ⟨by rw [h3, ← hbase]; exact h1, ?_⟩
+          rw [h3]; simp [hc, hids0]
+      · simp at hd
+    · rw [runWriteOut_other hist fs u n w hk iface day hown hkey] at hd
+      obtain ⟨h1, h2⟩ := ihu.1 iface day d hd
+      refine ⟨h1, ?_⟩
+      rw [h2, hexp]; simp [hown]
+  · intro iface day hd
+    by_cases hown : w.iface = iface ∧ dayOf w.ts = day
+    · obtain ⟨rfl, rfl⟩ := hown
+      rw [runWriteOut_own hist fs u n w hk hkey] at hd
+      split at hd
+      · simp at hd
+      · rename_i hcr
+        simp only [Bool.or_eq_true, not_or, Option.not_isSome_iff_eq_none, Bool.not_eq_true] at hcr
+        -- the directory was not even created: the kill came before the mkdir, i.e. before the commit point
+        have hnone : fs.day? w.iface (dayOf w.ts) = none := by
+          cases h : fs.day? w.iface (dayOf w.ts) with
+          | none => rfl
+          | some _ => simp [h] at hcr
+        have hnot : ¬ commitIndex hist fs u ≤ n := by
+          intro hc
+          have hin := mkdir_in_pre hist fs u w hk hnone
+          have hsub : Op.mkdir ((yearMonth w.ts).2 ++ "/" ++ toString (dayOf w.ts)) ∈ (program hist fs u).take n := by
+            rw [program_eq hist fs u w hk, List.append_assoc, List.take_append]
+            apply List.mem_append_left
+            rw [List.take_of_length_le (by unfold commitIndex at hc; omega)]
+            exact hin
+          have h3 := List.contains_iff_mem.2 hsub
+          rw [hcr.2] at h3
+          exact Bool.noConfusion h3
+        rw [hexp, ihu.2 _ _ hnone]; simp [hnot]
+    · rw [runWriteOut_other hist fs u n w hk iface day hown hkey] at hd
+      rw [hexp, ihu.2 _ _ hd]; simp [hown]
+
+theorem run_ok (hist : List WriteOut) (crash : Option (Nat × Nat)) :
+    ∀ upto, upto ≤ hist.length → RunOK hist crash upto (runHistory hist crash upto) := by
+  intro upto
+  induction upto with
+  | zero =>
+    intro _
+    refine ⟨fun iface day d h => by simp [runHistory, Fs.empty, Fs.day?] at h, fun iface day _ => by simp [expectedIds]⟩
+  | succ u ih =>
+    intro hu
+    have hk : hist[u]? = some hist[u] := List.getElem?_eq_getElem (by omega)
+    rw [runHistory_succ]
+    exact step_ok hist crash u hist[u] hk _ rfl (ih (by omega)) _ rfl
+
+
+theorem expectedIds_valid (hist : List WriteOut) (crash : Option (Nat × Nat)) (upto : Nat) (hu : upto ≤ hist.length)
+    (iface : String) (day : Int) : ∀ id ∈ expectedIds hist crash upto iface day, (hist[id]?).isSome := by
+  intro id hid
+  simp only [expectedIds, List.mem_filter, List.mem_range] at hid
+  have : id < hist.length := by omega
+  simp [List.getElem?_eq_getElem this]
+
+/-- **crash_consistent (queries)**: after the whole history — with write-out `k` killed before its
+    `n`-th file operation — a query reads from every day directory exactly the blocks of the
+    write-outs that reached their commit point, every one of them readable. -/
+theorem crash_consistent_query (hist : List WriteOut) (crash : Option (Nat × Nat)) (iface : String) (day : Int) (d : DayFs)
+    (hd : (runHistory hist crash hist.length).day? iface day = some d) :
+    dayQueryIds hist d = expectedIds hist crash hist.length iface day := by
+  obtain ⟨h1, h2⟩ := (run_ok hist crash hist.length (Nat.le_refl _)).1 iface day d hd
+  rw [dayQueryIds_of_ok hist d _ h1 (by rw [h2]; exact expectedIds_valid hist crash _ (Nat.le_refl _) iface day), h2]
+
+/-- … and the same right after the crash, before any further write-out -/
+theorem crash_consistent_query_at (hist : List WriteOut) (k n : Nat) (hk : k < hist.length) (iface : String) (day : Int)
+    (d : DayFs) (hd : (runHistory hist (some (k, n)) (k + 1)).day? iface day = some d) :
+    dayQueryIds hist d = expectedIds hist (some (k, n)) (k + 1) iface day := by
+  obtain ⟨h1, h2⟩ := (run_ok hist (some (k, n)) (k + 1) (by omega)).1 iface day d hd
+  rw [dayQueryIds_of_ok hist d _ h1 (by rw [h2]; exact expectedIds_valid hist _ _ (by omega) iface day), h2]
+
+/-- without a crash every write-out is stored -/
+theorem no_crash_all_stored (hist : List WriteOut) (iface : String) (day : Int) :
+    expectedIds hist none hist.length iface day = (List.range hist.length).filter (fun i => onDay hist i iface day) := by
+  simp [expectedIds, committedBy]
+
+/-- with a crash, every write-out other than the victim is stored -/
+theorem crash_loses_at_most_victim (hist : List WriteOut) (k n : Nat) (iface : String) (day : Int) (i : Nat)
+    (hi : i < hist.length) (hik : i ≠ k) (hon : onDay hist i iface day = true) :
+    i ∈ expectedIds hist (some (k, n)) hist.length iface day := by
+  simp only [expectedIds, List.mem_filter, List.mem_range, Bool.and_eq_true]
+  exact ⟨hi, hon, by simp [committedBy, hik]⟩
+
+/-! ### the listing: consistent except in the recorded window -/
+
+/-- **listing_partial** (C04): the interface listing of the day agrees with the committed blocks
+    unless the writer was killed between `rename(.blockmeta)` and `rename(<day> → <day>_<summary>)`
+    of a day whose directory already carried a summary; in that window it still shows the previous
+    summary (known finding C04-listing-stale-between-metadata-and-dir-rename). -/
+theorem listing_partial (hist : List WriteOut) (fs : Fs) (k : Nat) (w : WriteOut) (hk : hist[k]? = some w)
+    (d0 : DayFs) (ids : List Nat) (hok : DayOK hist d0 ids) (hclean : CleanName hist d0 ids)
+    (hd0 : (fs.day? w.iface (dayOf w.ts)).getD d0 = d0) (hmeta0 : ids ≠ [] → d0.metaIds = some ids)
+    (hmeta1 : d0.metaIds = none ∨ d0.metaIds = some ids) (n : Nat) :
+    let d' := runDay hist k ids d0 ((program hist fs k).take n)
+    (n < commitIndex hist fs k → dayList hist d' = dayList hist d0) ∧
+    (commitIndex hist fs k ≤ n →
+      dayList hist d' = totalsIds hist (ids ++ [k]) ∨
+      (d0.named = some (totalsIds hist ids) ∧ dayList hist d' = totalsIds hist ids ∧
+       Op.renamedir ∉ (postOps hist fs k).take (n - commitIndex hist fs k))) := by
+  intro d'
+  have h := crash_consistent_day hist fs k w hk d0 ids hok hd0 hmeta0 n
+  constructor
+  · intro hn
+    obtain ⟨_, h2, h3⟩ := h.1 hn
+    show dayList hist (runDay hist k ids d0 ((program hist fs k).take n)) = _
+    simp only [dayList, h2, h3]
+  · intro hn
+    obtain ⟨_, h2, h3⟩ := h.2 hn
+    rcases h3 with h3 | ⟨h3, _, h5⟩
+    · left
+      show dayList hist (runDay hist k ids d0 ((program hist fs k).take n)) = _
+      simp only [dayList, h2, h3, Option.getD_some]
+    · rcases hclean with hc | hc
+      · left
+        show dayList hist (runDay hist k ids d0 ((program hist fs k).take n)) = _
+        simp only [dayList, h2, h3, hc, Option.getD_none]
+      · right
+        refine ⟨hc, ?_, h5⟩
+        show dayList hist (runDay hist k ids d0 ((program hist fs k).take n)) = _
+        simp only [dayList, h2, h3, hc, Option.getD_some]
+
+/-! ### non-vacuity and the recorded finding, on a concrete history -/
+
+def exFlow (b : Nat) : Flow := { sip := "0a000001", dip := "c0a80101", dport := 80, proto := 6, br := b, bs := 2, pr := 1, ps := 1 }
+def exHist : List WriteOut :=
+  [ { iface := "eth0", ts := 1699920300, drops := 1, flows := [exFlow 100] },
+    { iface := "eth0", ts := 1699920600, drops := 0, flows := [exFlow 10] } ]
+
+-- killed before the commit point of the second write-out: query and listing show the first block only
+example : queryIds exHist (runHistory exHist (some (1, 5)) 2) = [0] ∧
+    listTotals exHist (runHistory exHist (some (1, 5)) 2) = [("eth0", [1, 0, 1, 100, 2, 1, 1])] := by decide
+-- run to completion: both blocks, listing agrees
+example : queryIds exHist (runHistory exHist none 2) = [0, 1] ∧
+    listTotals exHist (runHistory exHist none 2) = [("eth0", [2, 0, 1, 110, 4, 2, 2])] := by decide
+-- the recorded window (killed after renamemeta = op 21, before renamedir = op 22):
+-- the query already sees both blocks while the listing still reports the first one only
+example : (program exHist (runHistory exHist none 1) 1)[21]? = some Op.renamemeta ∧
+    (program exHist (runHistory exHist none 1) 1)[22]? = some Op.renamedir ∧
+    queryIds exHist (runHistory exHist (some (1, 22)) 2) = [0, 1] ∧
+    listTotals exHist (runHistory exHist (some (1, 22)) 2) = [("eth0", [1, 0, 1, 100, 2, 1, 1])] := by decide
+-- killed during the very first write-out of a new day (directory created, no metadata yet): readers skip the day
+example : queryIds exHist (runHistory exHist (some (0, 8)) 1) = [] ∧
+    ((runHistory exHist (some (0, 8)) 1).day? "eth0" 1699920000).isSome = true := by decide
+
 end C04
